@@ -671,7 +671,7 @@ func c15r1(c *core.Ctx) {
 		}
 		ok := false
 		core.Instrs(f, func(i ssa.Instruction) {
-			if g := core.Callee(i); g != nil && (g.Name() == "NewCharacteristic" || g.Name() == "NewString") && core.CallOf(i).Args[0] == ssa.Value(f.Params[0]) {
+			if g := core.Callee(i); g != nil && (cn(g) == "NewCharacteristic" || cn(g) == "NewString") && core.CallOf(i).Args[0] == ssa.Value(f.Params[0]) {
 				ok = true
 			}
 		})
@@ -685,13 +685,13 @@ func c15r1(c *core.Ctx) {
 				if g == nil {
 					return
 				}
-				if g.Name() == "UpdateValue" {
+				if cn(g) == "UpdateValue" {
 					a := core.CallOf(i).Args[1]
 					if mi, isMI := a.(*ssa.MakeInterface); isMI && mi.X == ssa.Value(sv.Params[1]) {
 						okv = true
 					}
 				}
-				if w == "Bytes" && g.Name() == "SetValue" {
+				if w == "Bytes" && cn(g) == "SetValue" {
 					okv = true
 				}
 			})
